@@ -76,6 +76,12 @@ def specs(tier: str, seed: int) -> list[dict]:
     # plain composites exchanging in both directions within one trial, distinguishable atoms
     add("GrandCanonical", "A3", [["x", "D_ball+E_trans+E_trans", 1.0, "gc"]], rich)
     add("GrandCanonical", "M1", [["x", "D_rot+E_transrot+E_transrot", 1.0, "gc"]], ("tags", "charges"))
+    # composite exchanges whose members' geometric checks may refuse (one member succeeds, another fails)
+    add("GrandCanonical", "A2", [["e", "E_trans*2"]], ("tags",), check=True)
+    add("GrandCanonical", "A2", [["e", "E_trans+E_trans"]], (), check=True)
+    # particle-conserving relocation (delete one, insert one) with a constraint indexed after the exchangeable atoms
+    add("GrandCanonical", "A3", [["x", "G[E0_trans,E1_trans]", 1.0, "gc"], ["e", "E0_trans"]], ("fix:2",), labels=[0, 1, -1], depth=2)
+    add("GrandCanonical", "A3", [["x", "G[E0_trans,E1_trans]", 1.0, "gc"], ["e", "E_trans"]], ("fix:2", "tags"), labels=[0, 1, -1], depth=3)
     if tier == "thorough":
         for s in list(out):
             if s["depth"] is None:
